@@ -49,12 +49,12 @@ def main():
         for d in (1, 2, 3):
             tag = "d%d-r%d" % (d, rep)
             # products: every documented mode; second operand optionally broadcast (batch size one)
-            prods = [("dot", m) for m in [(2, 2), (1, 1), (2, 1), (1, 2), (2, 3), (3, 2), (4, 1), (1, 4), (2, 4), (4, 2)]] + \
+            prods = [("dot", m) for m in [(2, 2), (1, 1), (2, 1), (1, 2), (2, 3), (3, 2), (4, 1), (1, 4), (2, 4), (4, 2), (4, 4)]] + \
                     [("ddot", m) for m in [(2, 2), (2, 4), (4, 2), (2, 3), (3, 2), (4, 4)]] + [("dddot", (3, 3))]
             for op, mode in prods:
                 for bc in (False, True):
                     rid = "%s-%d%d-%s-bc%d" % (op, mode[0], mode[1], tag, bc)
-                    if not out.want(rid) or (d == 3 and sum(mode) >= 8 and quick and rep > 0):
+                    if not out.want(rid) or (d == 3 and sum(mode) >= 8 and quick and rep > 0) or (op == "dot" and mode == (4, 4) and d == 3 and bc):
                         continue
                     A = rnd(order_shape(mode[0], d))
                     B = rnd(order_shape(mode[1], d), nb=1 if bc else NB)
@@ -143,6 +143,8 @@ def main():
                 ("inv-sym", lambda: fm.inv(As), lambda: fm.inv(As, sym=True), As),
                 ("inv-det", lambda: fm.inv(As), lambda: fm.inv(As, determinant=fm.det(As)), As),
                 ("inv-out", lambda: fm.inv(As), lambda: fm.inv(As, out=np.full_like(As, 9.0)), As),
+                ("inv-full0", lambda: fm.inv(As), lambda: fm.inv(As, full_output=True)[0], As),
+                ("inv-full1", lambda: fm.det(As), lambda: fm.inv(As, full_output=True)[1], As),
                 ("cof-sym", lambda: fm.cof(As), lambda: fm.cof(As, sym=True), As),
                 ("cof-out", lambda: fm.cof(As), lambda: fm.cof(As, out=np.full_like(As, 9.0)), As),
                 ("det-out", lambda: fm.det(A), lambda: fm.det(A, out=np.full(A.shape[2:], 9.0)), A),
@@ -179,6 +181,16 @@ def main():
                 S = 2 ** 20
                 out.write({"id": rid, "kind": "eig", "nt": True, "symmetric": True, "d": d, "S": S, "A": T(Ae, d), "nbo": NB,
                            "val": q(w, S), "vec": q(v, S)})
+            # eigenvalues with principal shear values (integer spectra: diagonal matrices conjugated by a signed permutation)
+            rid = "eigshear-%s" % tag
+            if out.want(rid) and d >= 2:
+                lam = np.sort(rng.randint(-4, 5, size=(d, NB)), axis=0).astype(float)
+                perm = rng.permutation(d)
+                Ad = np.zeros((d, d, NB))
+                for k_ in range(d):
+                    Ad[perm[k_], perm[k_]] = lam[k_]
+                res = fm.eigvalsh(Ad, shear=True)
+                out.write({"id": rid, "kind": "eigshear", "nt": True, "d": d, "nbo": NB, "val": scaled(fm.eigvalsh(Ad), 1), "out": scaled(res, 1)})
     # rotation matrices
     S = 2 ** 20
     for dim in (2, 3):
@@ -199,6 +211,18 @@ def main():
         rid = "linsteps-%s-%d" % ("_".join(map(str, pts)), num)
         if out.want(rid) and len(pts) > 1:
             out.write({"id": rid, "kind": "linsteps", "nt": True, "points": pts, "num": num, "S": 64, "out": scaled(fm.linsteps(pts, num=num), 64)})
+    for pts, num in (([0, 1, 3], 4), ([2, -2], 8)):
+        rid = "linstepsopen-%s-%d" % ("_".join(map(str, pts)), num)
+        if out.want(rid):
+            out.write({"id": rid, "kind": "linstepsopen", "nt": True, "points": pts, "num": num, "S": 64,
+                       "out": scaled(fm.linsteps(pts, num=num, endpoint=False), 64)})
+        for axis, axes, values in ((0, 2, [0, 3]), (1, 3, [2, 0, -1]), (2, None, [1, 1, 0])):
+            rid = "linstepstable-%s-%d-ax%d" % ("_".join(map(str, pts)), num, axis)
+            if out.want(rid):
+                kw = {} if axes is None else {"axes": axes}
+                res = fm.linsteps(pts, num=num, axis=axis, values=np.array(values, float)[: (axes or axis + 1)], **kw)
+                out.write({"id": rid, "kind": "linstepstable", "nt": True, "axis": axis, "axes": int(res.shape[1]), "S": 64,
+                           "values": [int(v) for v in values[: res.shape[1]]], "seq": scaled(fm.linsteps(pts, num=num), 64), "out": scaled(res, 64)})
     out.close()
 
 
